@@ -44,6 +44,8 @@ type Engine struct {
 
 	touchCache map[*ssa.Function]map[string]bool
 	touchBusy  map[*ssa.Function]bool
+	dirtyCache map[*ssa.Function]map[string]bool
+	dirtyBusy  map[*ssa.Function]bool
 
 	obligs     []*Obligation
 	assumptions map[string]bool
@@ -56,6 +58,7 @@ func newEngine(repo, specDir string) (*Engine, error) {
 		globalsDecl: map[string]string{}, globalAx: map[string][]string{}, lits: map[string]string{},
 		gaddr: map[*types.Var]string{}, loopEnumSort: map[string]string{},
 		touchCache: map[*ssa.Function]map[string]bool{}, touchBusy: map[*ssa.Function]bool{},
+		dirtyCache: map[*ssa.Function]map[string]bool{}, dirtyBusy: map[*ssa.Function]bool{},
 		spkg: map[string]*ssa.Package{}, ppkg: map[string]*packages.Package{},
 		compElemInv: map[string]func(string) string{}, compAllocInv: map[string]func(string, string) string{}, assumptions: map[string]bool{}}
 	cfg := &packages.Config{Mode: packages.LoadAllSyntax, Dir: repo, BuildFlags: []string{"-tags=verif"}, Tests: false,
